@@ -4,6 +4,7 @@ import Proofs.Locks
 import Model.Signals
 import Proofs.Offline
 import Proofs.Signals
+import Proofs.Connect
 /-! # C10 — the read routine never wedges: failed connections are left and redialed
 
 Model: `Model.Sync` (every interleaving of the read routine with any number of
@@ -164,5 +165,18 @@ theorem C10_toOffline_blocks_online (s : S) (h : s.link ≠ .closed) : s.toOffli
   simp only [this, Bool.false_eq_true, if_false]
   unfold offTail
   rw [breakAll_online, releasePing_online]
+
+/-- `connect` as a whole: whenever it reports success the client is online -/
+theorem C10_connect_success_online (s : S) (fromPrologue : Bool) (h : (s.connect fromPrologue).2 = .done none) :
+    (s.connect fromPrologue).1.online = true ∧ (s.connect fromPrologue).1.link = .live ∧ (s.connect fromPrologue).1.readConn = true := by
+  have key : ConnectGood (s.connect fromPrologue) := by
+    unfold S.connect
+    repeat' (first | split | dsimp only)
+    all_goals first
+      | exact connectFail_good _ _ _
+      | exact connectFinish_good _ _ _
+      | (intro h; cases h; done)
+      | (intro h; rename_i hm; have := connectFinish_good _ _ _; simp_all [ConnectGood]; done)
+  exact key h
 
 end Model
